@@ -310,10 +310,13 @@ def plot_phase_fold(
             orbit._vtrend = lambda t: 0.0
             rv = rv - trend(data.t)
 
+        # ids holds the source labels (0..n for a list, the keys for a dict): the
+        # k-th label in sorted order belongs to dv0_k, as in the design matrix
+        unq_ids = np.unique(ids)
         v0_offset_names = get_v0_offsets_equiv_units(sample.n_offsets).keys()
         for i, offset_name in zip(range(1, sample.n_offsets + 1), v0_offset_names):
             _tmp = sample[offset_name].item()
-            rv[ids == i] -= _tmp
+            rv[ids == unq_ids[i]] -= _tmp
 
         time_unit = u.day
         dt_jd = (data.t - t0).tcb.jd * u.day
